@@ -19,7 +19,7 @@ Record cli_obs := mkCliObs {
   c_sentinel_ok : option bool; c_rows : list (N * N * json * option f64); c_rows_ok : bool;
   c_bestfile : option json; c_summary : option (f64 * N * N); c_survivors : nat; c_panicked : bool;
   c_timed_out : bool; c_verbose_same : bool; c_has_failed_stdout : bool;
-  c_wall_ms : N; c_limit_ms : option N; c_all_fast_ok : bool; c_guess_json : option json; c_failed_to_reap : bool; c_deadline_ms : option N; c_sigint : bool }.
+  c_wall_ms : N; c_limit_ms : option N; c_all_fast_ok : bool; c_guess_json : option json; c_failed_to_reap : bool; c_deadline_ms : option N; c_sigint : bool; c_values : list (option f64) }.
 
 (** the spec files of tools/clistream.py *)
 Definition cli_spec (i : nat) : spec :=
@@ -158,6 +158,33 @@ Definition mon_C03 (o : cli_obs) : bool :=
 
 (** ** C04 through the binary: a time limit that fires while a long evaluation (8 s) is in flight
     ends the run within 4 s of the limit (the child is aborted, with or without -k) *)
+(** sequential run with a target and nothing else that can end it early: evaluations are processed
+    in seed order; the run stops with the first accepted value at or below the target *)
+Definition val_at (o : cli_obs) (k : nat) : option f64 :=
+  nth k (c_values o) (last (c_values o) None).
+Fixpoint first_hit (o : cli_obs) (t : f64) (k n : nat) : nat * bool :=
+  (* number of evaluations started, and whether the target was reached *)
+  match n with
+  | O => (k, false)
+  | S n' =>
+      match fst (beh_at o k), val_at o k with
+      | KAccept, Some v => if fle v t then (S k, true) else first_hit o t (S k) n'
+      | _, _ => first_hit o t (S k) n'
+      end
+  end.
+Definition target_stop_ok (o : cli_obs) : bool :=
+  match c_target o with
+  | Some t =>
+      if N.eqb (nc_of o) 1 && N.eqb (ss_of o) 1 && negb (c_has_terminate_after o) && negb (c_has_kill_after o) &&
+         negb (pre_error o) && negb (opt_is (c_invalid o)) && negb (c_sigint o) &&
+         negb (any_class o (fun k => match k with KFail | KSeq | KSeqNull => true | _ => false end)) &&
+         negb (existsb (fun b => match b with (KFail, _) | (KSeq, _) | (KSeqNull, _) => true | _ => false end) (c_behaviours o))
+      then let '(k, hit) := first_hit o t 0 (N.to_nat (c_n o)) in
+           Nat.eqb (n_started o) k && (negb hit || exit_zero o)
+      else true
+  | None => true
+  end.
+
 Definition mon_C04 (o : cli_obs) : bool :=
   match c_limit_ms o with
   | Some l => negb (c_timed_out o) && (pre_error o || N.leb (c_wall_ms o) (l + 4000))
@@ -166,6 +193,7 @@ Definition mon_C04 (o : cli_obs) : bool :=
   (* an interrupt while long evaluations are in flight (the first, fast one was accepted): the run is over
      within the deadline counted from the interrupt, reports that result, and has started no more than
      the evaluations that were in flight *)
+  target_stop_ok o &&
   (negb (c_sigint o) ||
    (within_deadline o && exit_zero o && Nat.eqb (c_stdout_lines o) 1 &&
     Nat.leb (n_started o) (S (N.to_nat (nc_of o))))).
